@@ -279,7 +279,7 @@ ALIASES = {"X86_64": ["amd64", "x86_64"], "I386": ["386", "i386"], "ARM": ["arm"
 
 def policy_stream(ctx, prop, kinds, npol, nev, arches=None, defects=None, le_choices=(0, 1), replay=None,
                   defect_share=0.0, foreign_share=0.15, extra_cases=None, x32_share=0.0, goarch=None, salt=0, native_endian=False,
-                  noise=False, prefix=None, native_share=0.12):
+                  noise=False, prefix=None, native_share=0.12, outer=False):
     """Generate policies of the given kinds, compile them with the implementation and the model, and run the
     implementation's programs on partition events against the specification. Returns dict with results."""
     rng = random.Random(ctx.seed * 1000003 + int(prop[1:]) + salt)
@@ -293,6 +293,9 @@ def policy_stream(ctx, prop, kinds, npol, nev, arches=None, defects=None, le_cho
     if noise:
         # hostile surroundings: every variable the sources could ask for is set (lib/ambient.py)
         env = ambient.noise_env(env or GOENV)
+    if outer:
+        # the compiling process is confined by an outer seccomp filter (hand-written, not the library's) that answers seccomp(2) with EPERM
+        env = dict(env or GOENV, VERIF_OUTER_FILTER="1")
     st = Stream(ctx, harness=h if goarch else None, env=env, prefix=prefix)
     if native_endian:
         le_choices = (1,)
@@ -421,16 +424,17 @@ def ambient_passes(ctx, prop, kinds, replay=None, npol=(40, 300), nev=10, **kw):
     build on this 64-bit kernel; a third of the policies leave the architecture to the library. The programs must still
     be the model's."""
     pres = ambient.personality_prefixes()
-    combos = [(None, None), ("386", None)] + ([(None, pres[0]), ("386", pres[1])] if pres else [])
+    combos = [(None, None, False), ("386", None, False)] + ([(None, pres[0], False), ("386", pres[1], False)] if pres else []) + [(None, None, True), ("386", None, True)]
     n = npol[0] if ctx.tier == "quick" else npol[1]
     total = dict(programs=0, events=0, combos=[])
-    for ci, (ga, pre) in enumerate(combos):
-        label = "%s build, hostile environment%s" % (ga or "host", ", run under `%s`" % " ".join(pre) if pre else "")
+    for ci, (ga, pre, outer) in enumerate(combos):
+        label = "%s build, hostile environment%s%s" % (ga or "host", ", run under `%s`" % " ".join(pre) if pre else "",
+                                                       ", confined by an outer seccomp filter that refuses seccomp(2)" if outer else "")
         if replay and replay.get("ambient") != label:
             continue
         before = len(ctx.violations)
         res = policy_stream(ctx, prop, kinds, n, nev, goarch=ga, salt=9100 + ci, replay=replay, native_endian=True, noise=True, prefix=pre,
-                            native_share=0.35, **kw)
+                            native_share=0.35, outer=outer, **kw)
         if res is not None:
             ndiff, nbad = report_case_failures(ctx, res["cases"], "policies compiled by a %s (%s)" % (label, prop),
                                                describe=lambda cid: dict(res["meta"].get(cid) or {}, ambient=label))
